@@ -91,6 +91,19 @@ impl BuildRecord {
             });
         }
 
+        // The build number is served in the `BuildId!DEC:4` column, which
+        // clients parse as a decimal integer
+        if !self.build.bytes().all(|b| b.is_ascii_digit()) || self.build.parse::<i64>().is_err() {
+            return Err(DatabaseError::InvalidField {
+                field: "build".to_string(),
+                build_id: self.id,
+                reason: format!(
+                    "build must be a decimal number (served as BuildId!DEC), got '{}'",
+                    self.build
+                ),
+            });
+        }
+
         // These strings are written verbatim into BPSV cells
         self.validate_bpsv_cell("product", &self.product)?;
         if self.product.starts_with('#') {
